@@ -15,6 +15,7 @@ func simBeforeLock(mu *sync.Mutex, site string)  {}
 func simAfterUnlock(mu *sync.Mutex, site string) {}
 func simTaskBegin(kind string, id int64)         {}
 func simTaskEnd()                                {}
+func simGo(f func())                             { go f() }
 func simRecover()                                {}
 func simProbe(name string)                       {}
 func simClientBorn(id int64, remoteAddr string)  {}
